@@ -146,6 +146,21 @@ def vbool (b : Bool) : Res := .ok (.bool b)
 def floatToInt? (f : Float) : Option Int64 :=
   if f.isNaN || f.isInf || f ≥ 9.2e18 || f ≤ -9.2e18 then none else some f.toInt64
 
+/-- `math.Pow` where its result is certainly exact: integer base and non-negative integer exponent
+    with |result| < 2^53.  Elsewhere Go's own algorithm and the C library may differ in the last
+    bit, so the executable model declines to answer (`unsupported`). -/
+def exactPow (l r : Float) : Option Float :=
+  if l.isNaN || r.isNaN || l.isInf || r.isInf then none
+  else if l != l.floor || r != r.floor || r < 0 || r > 64 || l.abs ≥ 9007199254740992 then none
+  else
+    let b := l.abs.toUInt64.toNat
+    let e := r.toUInt64.toNat
+    let n := b ^ e
+    if n ≥ 9007199254740992 then none
+    else
+      let neg := l < 0 && e % 2 == 1
+      some (if neg then -(Float.ofNat n) else Float.ofNat n)
+
 def intOp (op : Op) (l r : Int64) : Res :=
   match op with
   | .add => .ok (.int (l + r))
@@ -154,8 +169,8 @@ def intOp (op : Op) (l r : Int64) : Res :=
   | .div => if r == 0 then err "div0" else .ok (.int (l / r))
   | .mod => if r == 0 then .error .panic else .ok (.int (l % r))
   | .power =>
-      match floatToInt? (Float.pow l.toFloat r.toFloat) with
-      | some i => .ok (.int i)
+      match exactPow l.toFloat r.toFloat with
+      | some f => (match floatToInt? f with | some i => .ok (.int i) | none => .error .unsupported)
       | none => .error .unsupported
   | .less => vbool (l < r)
   | .lessEqual => vbool (l ≤ r)
@@ -175,7 +190,7 @@ def floatOp (op : Op) (l r : Float) : Res :=
       match floatToInt? l, floatToInt? r with
       | some a, some b => if b == 0 then .error .panic else .ok (.float (a % b).toFloat)
       | _, _ => .error .unsupported
-  | .power => .ok (.float (Float.pow l r))
+  | .power => (match exactPow l r with | some f => .ok (.float f) | none => .error .unsupported)
   | .less => vbool (l < r)
   | .lessEqual => vbool (l ≤ r)
   | .greater => vbool (l > r)
